@@ -20,16 +20,20 @@ from vlib import common as C
 
 META = {
     'property_id': 'C14',
-    'technique': 'Lean 4 theorems over all addresses/byte lists/page states about a micro-step model of mProtectCrossPage+WriteTo+genJumpData '
-                 '(PageStart and the 13-byte jump regenerated from the Go source), tied to the real code by a differential run under strace',
+    'technique': 'Lean 4 theorems over all addresses/byte lists/page states and over all histories of install/remove operations about a micro-step model of '
+                 'mProtectCrossPage+WriteTo(+fall-back)+genJumpData+guards/UnpatchAll (PageStart and the 13-byte jump regenerated from the Go source), '
+                 'tied to the real code by a differential run under strace',
     'level': 'proof',
     'level_text': 'Full proof on the model: for every address, every data length (any number of page crossings) and every page-protection state, '
                   'the pages mprotect-ed cover the write and are tight, bytes outside [a,a+n) never change (on every path), the data lands intact, '
                   'no prefix of the mprotect/copy script drops the execute bit, visited pages end r-x and no page is left writable, the copy cannot fault, '
-                  'a function of size <= 13 is refused before any write, and an install/unpatch changes bytes only inside the entry jump / the placeholder body.',
+                  'a function of size <= 13 is refused before any write, and an install/unpatch changes bytes only inside the entry jump / the placeholder body. '
+                  'By induction over ALL histories of Patch/Apply/Unpatch/Restore/Unpatch(fn)/UnpatchAll on several targets (with pages unmapped in between and steps that panic): '
+                  'only entry bytes change, no image page is left writable, saved bytes stay 13. The W^X fall-back is modelled: bytes and final protections are right, x is dropped (known finding).',
     'level_note': 'Explicit hypotheses: the write does not reach the last page of the 64-bit address space (NoWrap; pages_wrapped_empty states what happens otherwise) '
-                  'and the kernel does not refuse mprotect (MappedAll). Outside the model: the fall-back writeTo of mwrite_prot.go taken only when the RWX mprotect is '
-                  'refused (it drops x for the duration), Windows/arm64 writers, instruction fetch of concurrently modified code. "No neighbour byte changes" on real text '
+                  'and the kernel does not refuse mprotect (MappedAll). Known findings (recorded, not repaired): the fall-back of mwrite_prot.go goes through rw- (x dropped) '
+                  'under a W^X policy; the placeholder bound is goom\'s INT3 scan, which over-runs an exact-fill placeholder. Outside the model: GetFuncSize itself (its result is a model input), '
+                  'the relocated length written into a placeholder (C03), generic-target redirection, Windows/arm64 writers, instruction fetch of concurrently modified code. "No neighbour byte changes" on real text '
                   'additionally rests on entry-to-entry distance >= 13, measured on every function of the test binary each run (GetFuncSize over-runs are classified, not relied on). '
                   'Trusted: Lean kernel (propext, Classical.choice, Quot.sound), tools/gen, the kernel spec of mprotect/stores in Model/Mem.lean, strace and /proc/self/maps.',
 }
@@ -104,17 +108,41 @@ def gen_targets_go():
     return '\n'.join(out) + '\n'
 
 
+def probe_env(extra):
+    """environment of a probe: goom's own knobs scrubbed (GOOM_DEBUG turns on instruction dumps that read far beyond the entry)"""
+    env = C.goenv(extra)
+    for k in list(env):
+        if k.startswith('GOOM_') or k in ('GODEBUG', 'GOTRACEBACK', 'GOGC', 'GOMAXPROCS'):
+            del env[k]
+    return env
+
+
 def run_strace(binary, test, ops_path, out_path, tag, timeout=1800):
-    """Run a probe under strace; returns (rc, log, strace-file)."""
-    for p in (out_path, out_path + '.hdr'):
-        if os.path.exists(p):
-            os.remove(p)
+    """Run a probe under strace; returns (rc, log, strace-file).  A run that is killed or times out is repeated ONCE: a
+    crash that reproduces is then judged from its (missing) observations, a hiccup of a loaded machine is not."""
+    import shutil
+    if shutil.which('strace') is None:
+        raise C.Infra('strace is not installed: the mprotect sequences cannot be observed')
     st = os.path.join(C.BUILD, tag + '.strace')
-    env = C.goenv({'VERIF_OPS': ops_path, 'VERIF_OUT': out_path, 'VERIF_SEED': str(C.seed())})
+    env = probe_env({'VERIF_OPS': ops_path, 'VERIF_OUT': out_path, 'VERIF_SEED': str(C.seed())})
     cmd = ['strace', '-f', '-e', 'trace=mprotect', '-e', 'signal=none', '-o', st, binary, '-test.run', '^' + test + '$', '-test.count=1',
            '-test.timeout', f'{timeout}s']
-    p = subprocess.run(cmd, env=env, cwd=C.BUILD, capture_output=True, text=True, timeout=timeout + 60)
-    return p.returncode, p.stdout + p.stderr, st
+    rc, log = 1, ''
+    for attempt in (1, 2):
+        for p in (out_path, out_path + '.hdr', st):
+            if os.path.exists(p):
+                os.remove(p)
+        try:
+            p = subprocess.run(cmd, env=env, cwd=C.BUILD, capture_output=True, text=True, timeout=timeout + 60)
+            rc, log = p.returncode, p.stdout + p.stderr
+        except subprocess.TimeoutExpired as e:
+            rc, log = -9, f'timeout after {timeout + 60}s: {e}'
+        if rc == 0:
+            break
+        C.log(f'C14: probe {tag} ended with rc={rc} (attempt {attempt})')
+    if 'ptrace' in log and 'Operation not permitted' in log:
+        raise C.Infra('strace cannot attach (ptrace not permitted in this environment): ' + log[-400:])
+    return rc, log, st
 
 
 _CALL = re.compile(r'^(\d+)\s+mprotect\((0x[0-9a-f]+|NULL), (\d+), ([A-Z_|]+|0)\)\s+= (-?\d+)(?: (\w+))?')
@@ -165,13 +193,21 @@ def canon_calls(calls, base):
 
 
 def classify_calls(calls, ret):
-    """Model vocabulary for what WriteTo did, from the traced calls: (res, calls-within-the-model)."""
+    """Model vocabulary for what WriteTo did, from the traced calls and how it returned."""
+    fail = [c for c in calls if c[3] != '0']
+    if not fail:
+        return 'ok' if ret == 'nil' else 'ret-' + ret
+    if fail[0][2] == 'rwx':                      # RWX refused -> mwrite_prot.go writeTo
+        return 'ok-fallback' if (len(fail) == 1 and ret == 'nil') else 'panic-fallback'
+    return 'panic-rx'
+
+
+def pre_refusal(calls):
+    """the calls up to and including the first refused one (what follows is the fall-back)"""
     for i, c in enumerate(calls):
         if c[3] != '0':
-            if c[2] == 'rwx':
-                return 'fallback', calls[:i + 1]      # everything after is mwrite_prot.go
-            return 'panic-rx', calls[:i + 1]
-    return ('ok' if ret == 'nil' else 'ret-' + ret), calls
+            return calls[:i + 1]
+    return calls
 
 
 # ------------------------------------------------------------------ generators
@@ -227,6 +263,18 @@ def gen_scratch(tier, rng):
         if off + n > k * 4096:
             n = max(0, k * 4096 - off)
         add(off, n, perms)
+    # W^X lane: the kernel refuses write+execute (seccomp filter in the probe) -> WriteTo's fall-back (mwrite_prot.go)
+    nw = 120 if not thorough else 3000
+    for off, n in ((4090, 13), (4083, 13), (4084, 13), (100, 13), (4096, 13), (4090, 0), (4096, 0), (4095, 2), (0, 8192), (4000, 5000)):
+        ops.append(f'c14.writewx {off} {rand_bytes(rng, n)} x,x,x,x')
+    for _ in range(nw):
+        k = 2 + rng.below(5)
+        perms = [('x' if rng.below(8) else rng.choice(['r', 'd'])) for _ in range(k)]
+        n = rng.below(65) if rng.below(4) else rng.below(6000)
+        off = 4096 * (1 + rng.below(k - 1)) - rng.below(70) + rng.below(4)
+        if off + n > k * 4096:
+            n = max(0, k * 4096 - off)
+        ops.append(f'c14.writewx {off} {rand_bytes(rng, n)} {",".join(perms)}')
     # malformed lane: an unmapped page inside (or next to) the range -> mprotect refused -> fall-back path
     nm = 40 if not thorough else 400
     for _ in range(nm):
@@ -261,7 +309,8 @@ def touched_pages(off, n):
 
 def oracle_write(op, obs, calls, base):
     """Returns None or a description of how the real WriteTo broke C14 on this op."""
-    _, off, hx, perms = op.split()
+    kind, off, hx, perms = op.split()
+    wx = kind == 'c14.writewx'
     off = int(off)
     n = 0 if hx == '-' else len(hx) // 2
     perms = perms.split(',')
@@ -281,11 +330,15 @@ def oracle_write(op, obs, calls, base):
     malformed = any(perms[i] == 'u' for i in tp) or (n == 0 and perms[off // 4096] == 'u')
     # x never dropped; for a write into an unmapped page (caller error) only up to the refused mprotect — what follows
     # is the fall-back of mwrite_prot.go, which is outside the model and is known to go through rw-
-    for a, ln, prot, res in (classify_calls(calls, kv['ret'])[1] if malformed else calls):
+    dropped = None
+    for a, ln, prot, res in (pre_refusal(calls) if malformed else calls):
         if 'x' not in prot:
-            return f'mprotect({rel(a, base)}, {ln}, {prot}) drops the execute bit'
+            dropped = f'mprotect({rel(a, base)}, {ln}, {prot}) drops the execute bit'
+            break
+    if dropped and not wx:
+        return dropped
     if malformed:
-        return None      # only frame and x-never-dropped (inside the model) are demanded
+        return None      # caller error (the write cannot succeed): only frame and x-never-dropped before the refusal are demanded
     if kv['ret'] != 'nil':
         return f'WriteTo did not return normally: {kv["ret"]}'
     if int(kv['wrong']) != 0:
@@ -294,67 +347,77 @@ def oracle_write(op, obs, calls, base):
     seen_rwx, last = set(), {}
     for a, ln, prot, res in calls:
         d = a - base
-        if d % 4096 or ln != 4096:
-            return f'mprotect({rel(a, base)}, {ln}) is not exactly one page'
-        pg = d // 4096
-        if pg not in allowed:
-            return f'mprotect on page {pg} which holds no byte of the write (pages {sorted(allowed)})'
-        if res != '0':
+        if d % 4096 or ln % 4096 or ln == 0:
+            return f'mprotect({rel(a, base)}, {ln}) is not a whole number of pages'
+        pgs = list(range(d // 4096, (d + ln) // 4096))      # one call may span several pages: the property does not say how
+        for pg in pgs:
+            if pg not in allowed:
+                return f'mprotect on page {pg} which holds no byte of the write (pages {sorted(allowed)})'
+        if res != '0' and not (wx and prot == 'rwx' and res == 'EACCES'):
             return f'mprotect({rel(a, base)}) failed: {res}'
-        if prot == 'rwx':
-            seen_rwx.add(pg)
-        last[pg] = prot
+        for pg in pgs:
+            if res == '0' and 'w' in prot:
+                seen_rwx.add(pg)
+            if res == '0':
+                last[pg] = prot
     if not tp <= seen_rwx:
         return f'pages {sorted(tp - seen_rwx)} hold written bytes but were never made writable'
     final = kv['perms'].split(',')
     for i, p0 in enumerate(perms):
-        want = 'x' if i in last else p0
-        if final[i] != want:
-            return f'page {i} ends as {final[i]}, wanted {want} (initial {p0}, {"touched" if i in last else "untouched"})'
-        if i in last and last[i] != 'rx':
-            return f'last mprotect of page {i} is {last[i]}, not rx'
+        if i not in last:
+            if final[i] != p0:
+                return f'page {i} was not touched but ends as {final[i]} (initial {p0})'
+        elif final[i] not in ('x', p0) or (final[i] in ('w', 'd') and p0 == 'x'):
+            # r-x afterwards (what goom does), or the protection it had before; never newly writable / no longer executable
+            return f'page {i} ends as {final[i]} (initial {p0}): left writable or not executable'
+    if dropped:
+        return 'KNOWN:fallback-drops-x:' + dropped       # W^X lane: everything else held; the fall-back went through rw-
     return None
 
 
 # ------------------------------------------------------------------ run
 
 def execute(ops, tag='c14'):
-    """Run ops through the real code (under strace) and the model. Returns (impl lines, model lines, raw obs, calls, base, err)."""
+    """Run ops through the real code (under strace) and the model. Returns (impl lines, model lines, raw obs, calls, bases, err)."""
     ops_path = os.path.join(C.BUILD, f'{tag}.ops')
     open(ops_path, 'w').write('\n'.join(ops) + '\n')
     bins = build_probes()
-    outp = os.path.join(C.BUILD, f'{tag}.mem.impl')
-    rc, log, st = run_strace(bins['mem'], 'TestVerifC14', ops_path, outp, tag + '.mem')
-    raw = C.read_indexed(outp, len(ops))
-    if rc != 0 and not any(raw):
-        raise C.Infra(f'probe c14-mem failed rc={rc}:\n{log[-2000:]}')
-    hdr = dict(p.split('=') for p in open(outp + '.hdr').read().split()) if os.path.exists(outp + '.hdr') else {}
-    base = int(hdr.get('base', '0'), 16)
-    per = parse_strace(st)
     impl = [None] * len(ops)
     calls = [None] * len(ops)
-    for i, op in enumerate(ops):
-        if raw[i] is None:
-            continue
-        if op.startswith('c14.write'):
-            cs = per.get(i)
-            calls[i] = cs
-            cmp_part, _, extra = raw[i].partition(' | ')
-            ret = dict(p.split('=', 1) for p in extra.split() if '=' in p).get('ret', '?')
-            res, within = classify_calls(cs or [], ret)
-            impl[i] = f'res={res} calls={canon_calls(within, base)} {cmp_part}'
-        else:
-            impl[i] = raw[i]
+    raw = [None] * len(ops)
+    bases = [0] * len(ops)
+    logs = ''
+    lanes = [('TestVerifC14', 'mem', lambda o: o.startswith('c14.write ') or o.startswith('c14.ps '))]
+    if any(o.startswith('c14.writewx ') for o in ops):
+        lanes.append(('TestVerifC14WX', 'memwx', lambda o: o.startswith('c14.writewx ')))
+    for test, sub, mine in lanes:
+        outp = os.path.join(C.BUILD, f'{tag}.{sub}.impl')
+        rc, log, st = run_strace(bins['mem'], test, ops_path, outp, f'{tag}.{sub}')
+        r = C.read_indexed(outp, len(ops))
+        if rc != 0 and not any(r):
+            raise C.Infra(f'probe c14-mem {test} failed rc={rc}:\n{log[-2000:]}')
+        if rc != 0:
+            logs += log
+        hdr = dict(p.split('=') for p in open(outp + '.hdr').read().split()) if os.path.exists(outp + '.hdr') else {}
+        base = int(hdr.get('base', '0'), 16)
+        per = parse_strace(st)
+        for i, op in enumerate(ops):
+            if not mine(op) or r[i] is None:
+                continue
+            raw[i], bases[i] = r[i], base
+            if op.startswith('c14.write'):
+                cs = per.get(i)
+                calls[i] = cs
+                cmp_part, _, extra = r[i].partition(' | ')
+                ret = dict(p.split('=', 1) for p in extra.split() if '=' in p).get('ret', '?')
+                impl[i] = f'res={classify_calls(cs or [], ret)} calls={canon_calls(cs or [], base)} {cmp_part}'
+            else:
+                impl[i] = r[i]
     exe, err = C.build_driver()
     if exe is None:
-        return impl, None, raw, calls, base, err
+        return impl, None, raw, calls, bases, err
     model = C.run_driver(exe, ops_path, os.path.join(C.BUILD, f'{tag}.model'))
-    # outside the model: after a refused RWX mprotect only the outcome and the calls up to the refusal are compared
-    for i in range(len(ops)):
-        for lines in (impl, model):
-            if lines[i] and lines[i].startswith('res=fallback '):
-                lines[i] = ' '.join(lines[i].split()[:2])
-    return impl, model, raw, calls, base, (log if rc != 0 else '')
+    return impl, model, raw, calls, bases, logs
 
 
 def run_text_survey(bins):
@@ -364,7 +427,9 @@ def run_text_survey(bins):
     outp = os.path.join(C.BUILD, 'c14.survey.impl')
     if os.path.exists(outp + '.survey'):
         os.remove(outp + '.survey')
-    rc, log = C.run_probe(bins['text'], 'TestVerifC14Text', ops_path, outp)
+    rc, log = C.run_probe(bins['text'], 'TestVerifC14Text', ops_path, outp, env={'GOOM_DEBUG': ''})
+    if rc != 0:      # once more before concluding anything (loaded machine)
+        rc, log = C.run_probe(bins['text'], 'TestVerifC14Text', ops_path, outp, env={'GOOM_DEBUG': ''})
     head = C.read_indexed(outp, 1)[0]
     if rc != 0 or head is None or not os.path.exists(outp + '.survey'):
         raise C.Infra(f'survey probe failed rc={rc}:\n{log[-2000:]}')
@@ -412,6 +477,12 @@ def gen_text_ops(fs, tier, rng):
     for j, p in enumerate(phs):
         for b in (bigs if tier == 'thorough' else [bigs[j % len(bigs)]]):
             ops.append(f"c14.tramp name={b['name']} tramp={p['name']}")
+    # a placeholder of exactly N code bytes with no padding behind it and a neighbour function right after (private mapping)
+    for n in (16, 24, 32, 48, 64, 128):
+        for b in (bigs[:2] if tier == 'quick' else bigs):
+            ops.append(f"c14.tramp name={b['name']} mph={n}")
+    for n in (4, 8, 12, 20, 40):
+        ops.append(f"c14.tramp name={bigs[0]['name']} mph={n} pad=1")
     return ops
 
 
@@ -461,6 +532,10 @@ def oracle_text(op, obs, ph):
     if cmp_part in ('no-such-target', 'no-such-symbol'):
         return None
     tramp = op.startswith('c14.tramp')
+    if tramp and int(kv.get('stray_dist', '0')):
+        pre = 'KNOWN:placeholder-bound-overrun:' if (' mph=' in op and 'pad=1' not in op and int(kv['trampsize']) > int(kv['trampdist'])) else ''
+        return pre + (f'{kv["stray_dist"]} byte(s) beyond the placeholder\'s own body changed (body = distance to the next symbol {kv["trampdist"]}; '
+                f'goom bounded the write by its own scan, {kv["trampsize"]} bytes)')
     if not tramp and int(op.split()[2]) < 13:
         return f'a function of {op.split()[2]} bytes (too short to hold the 13-byte jump) was patched instead of refused'
     entry, ta, tsz = int(kv['entry'], 16), int(kv['tramp'], 16), int(kv['trampsize'])
@@ -488,7 +563,7 @@ def oracle_text(op, obs, ph):
     if not ph[1] or not ph[2]:
         return 'no mprotect traced for Apply/Unpatch'
     if tramp:
-        return oracle_calls(ph[0], ta, tsz, 'placeholder write', cover=False)   # the written length is goom's business (C03); it must stay inside the body
+        return oracle_calls(ph[0], ta, min(tsz, int(kv.get('trampdist', tsz))), 'placeholder write', cover=False)   # the written length is goom's business (C03); it must stay inside the body
     return None
 
 
@@ -514,8 +589,8 @@ def execute_text(ops, bins, tag='c14.text'):
                 impl[i] = 'oracle-only'
             elif cmp_part.startswith('apply='):
                 pbase = int(kv['pbase'], 16)
-                r1, c1 = classify_calls(ph[1], 'nil')
-                r2, c2 = classify_calls(ph[2], 'nil')
+                r1, c1 = classify_calls(ph[1], 'nil'), ph[1]
+                r2, c2 = classify_calls(ph[2], 'nil'), ph[2]
                 t = cmp_part.split()
                 impl[i] = f'apply={r1} {t[1]} calls={canon_calls(c1, pbase)} unpatch={r2} {t[3]} calls2={canon_calls(c2, pbase)} {t[4]}'
             else:
@@ -525,6 +600,169 @@ def execute_text(ops, bins, tag='c14.text'):
     exe, err = C.build_driver()
     model = C.run_driver(exe, ops_path, os.path.join(C.BUILD, f'{tag}.model')) if exe else None
     return impl, model, raw, phases, (log if rc != 0 else '')
+
+
+# ------------------------------------------------------------------ histories (install / remove / re-install / Restore / UnpatchAll)
+
+def gen_hist_ops(fs, tier, rng):
+    """c14.hist ops over real functions (T) and private executable copies (M, possibly straddling a page end or unmapped
+    in the middle of the history)."""
+    by = {f['name']: f for f in fs}
+    cands = [by[PKG + f'zzC14T{k:02d}'] for k in range(N_T) if PKG + f'zzC14T{k:02d}' in by]
+    cands = [f for f in cands if f['cls'] == 'nil' and f['dist'] >= 32 and not f['first'].startswith('90') and f['gsize'] <= f['dist']]
+    small = [f for f in cands if f['dist'] <= 256]
+    pages = sorted({f['addr'] // 4096 for f in cands})
+
+    def T(f):
+        return f"T:{pages.index(f['addr'] // 4096)}:{f['addr'] % 4096}:{f['gsize']}:{f['first']}:{f['name']}"
+
+    def M(f, off):
+        return f"M:{off}:64:{f['first']}:{f['name']}"
+    ops = []
+
+    def hist(targets, steps):
+        ops.append('c14.hist ' + ','.join(targets) + ' | ' + ' '.join(steps))
+    a, b, c, d = cands[3], cands[7], cands[11], small[2]
+    # removal of everything while one target lives in memory that is gone (unloaded code); first with a single healthy one
+    hist([T(a), M(d, 100)], ['patch.0', 'apply.0', 'patch.1', 'apply.1', 'unmap.1', 'unpatch.1', 'unpatchfn.1', 'unpatch.0'])
+    hist([T(a), T(b), T(c), M(d, 2048)], ['patch.0', 'apply.0', 'patch.1', 'apply.1', 'patch.2', 'apply.2', 'patch.3', 'apply.3', 'unmap.3', 'unpatchall'])
+    hist([T(a), T(b), M(d, 64)], ['patch.0', 'apply.0', 'patch.1', 'apply.1', 'patch.2', 'apply.2', 'unpatchall'])
+    # Restore, re-patch of a patched target, Unpatch twice, UnpatchAll with nothing / twice
+    hist([T(a)], ['patch.0', 'apply.0', 'unpatch.0', 'restore.0', 'unpatch.0', 'unpatch.0', 'restore.0', 'unpatchall', 'unpatchall'])
+    hist([T(a), T(b)], ['patch.0', 'apply.0', 'patch.0', 'apply.0', 'patch.1', 'patch.1', 'apply.1', 'unpatchfn.0', 'unpatchfn.0', 'restore.0', 'unpatchall', 'unpatch.0'])
+    hist([T(a)], ['unpatchall', 'apply.0', 'restore.0', 'unpatchfn.0', 'patch.0', 'unpatch.0', 'restore.0', 'apply.0', 'apply.0', 'unpatchall'])
+    # an entry whose 13 bytes straddle a page end (possible only for code that is not 16-byte aligned: a private copy)
+    for off in (4083, 4084, 4090, 4095):
+        hist([M(d, off), T(a)], ['patch.0', 'apply.0', 'patch.1', 'apply.1', 'unpatch.0', 'restore.0', 'unpatchall'])
+    words = ['patch', 'apply', 'apply', 'unpatch', 'restore', 'unpatchfn', 'patch']
+    n = 40 if tier == 'quick' else 600
+    for _ in range(n):
+        k = 1 + rng.below(4)
+        tg, used = [], set()
+        for i in range(k):
+            if rng.below(5) == 0:
+                tg.append(M(small[rng.below(len(small))], rng.choice([0, 32, 100, 2048, 4000, 4064, 4083, 4084, 4090, 4095])))
+            else:
+                f = cands[rng.below(len(cands))]
+                while f['name'] in used:
+                    f = cands[rng.below(len(cands))]
+                used.add(f['name'])
+                tg.append(T(f))
+        steps = []
+        unmapped = set()
+        for _ in range(4 + rng.below(14)):
+            r = rng.below(20)
+            if r == 0:
+                steps.append('unpatchall')
+            elif r == 1 and any(t.startswith('M') for t in tg):
+                i = rng.choice([i for i, t in enumerate(tg) if t.startswith('M')])
+                steps.append(f'unmap.{i}')
+                unmapped.add(i)
+            else:
+                i = rng.below(k)
+                w = rng.choice(words)
+                if i in unmapped and w == 'patch':
+                    w = 'unpatch'        # Patch would read the entry bytes of unmapped memory: a crash by construction, not goom's doing
+                steps.append(f'{w}.{i}')
+        steps.append('unpatchall')
+        hist(tg, steps)
+    return ops
+
+
+def hist_groups(calls, label):
+    """[(addr,len,prot,res)] -> ['(lab:prot=res,...)'] one group per WriteTo: a group ends when a write-enabling call follows a closing one"""
+    groups, cur, closing = [], [], False
+    for a, ln, prot, res in calls:
+        opening = prot in ('rwx', 'rw')
+        if cur and opening and closing and prot == 'rwx':
+            groups.append(cur)
+            cur, closing = [], False
+        cur.append(f'{label(a)}:{prot}={res}')
+        if prot == 'rx':
+            closing = True
+        # a refused rwx followed by rw (fall-back) stays in the same group
+    if cur:
+        groups.append(cur)
+    return ['(' + ','.join(g) + ')' for g in groups]
+
+
+def execute_hist(ops, bins, fs, tag='c14.hist'):
+    """-> (impl lines, model lines, per-op list of oracle findings)"""
+    ops_path = os.path.join(C.BUILD, f'{tag}.ops')
+    open(ops_path, 'w').write('\n'.join(ops) + '\n')
+    outp = os.path.join(C.BUILD, f'{tag}.impl')
+    rc, log, st = run_strace(bins['text'], 'TestVerifC14Text', ops_path, outp, tag)
+    raw = C.read_indexed(outp, len(ops))
+    if rc != 0 and not any(raw):
+        raise C.Infra(f'probe c14-text (histories) failed rc={rc}:\n{log[-2000:]}')
+    per = parse_strace(st)
+    exe, err = C.build_driver()
+    model = C.run_driver(exe, ops_path, os.path.join(C.BUILD, f'{tag}.model')) if exe else None
+    by = {f['name']: f for f in fs}
+    impl, why = [None] * len(ops), [None] * len(ops)
+    for i, op in enumerate(ops):
+        if raw[i] is None:
+            why[i] = 'no observation: the probe died during this history'
+            continue
+        cmp_part, _, extra = raw[i].partition(' | ')
+        tgs = op.split()[1].split(',')
+        steps = op.split()[3:]
+        mb = {}
+        for tok in extra.split():
+            if tok.startswith('mbases=') and len(tok) > 7:
+                mb = {int(x.split(':')[0]): int(x.split(':')[1], 16) for x in tok[7:].split(',')}
+        tpages = {}      # real page -> label
+        allowed = set()
+        for k, t in enumerate(tgs):
+            f = t.split(':')
+            if f[0] == 'T':
+                pg = by[f[-1]]['addr'] // 4096
+                tpages[pg] = f't{f[1]}'
+                allowed.add(pg)
+            else:
+                for j in range(3):
+                    tpages[mb[k] // 4096 + j] = f'm{k}.{j}'
+                e = mb[k] + 4096 + int(f[1])
+                allowed |= pages_of(e, 13)
+        label = lambda a: tpages.get(a // 4096, f'?{a:#x}')
+        out_steps = []
+        ex = {int(t.split(':')[0]): dict(kv.split('=') for kv in t.split(':', 1)[1].split(',')) for t in extra.split() if t[0].isdigit()}
+        for sn, tok in enumerate(cmp_part.split()):
+            stp, _, rest = tok.partition('=')
+            res, _, vec = rest.partition('{')
+            cs = per.get(64 * i + sn, [])
+            gs = hist_groups(cs, label)
+            if stp == 'unpatchall':
+                gs = sorted(gs)
+            out_steps.append(f'{stp}={res}[{"".join(gs)}]{{{vec}')
+            # ---- the property on the implementation, step by step
+            if why[i]:
+                continue
+            e = ex.get(sn, {})
+            if e.get('img') != 'true':
+                why[i] = f'after step {sn} ({stp}) the protections of the executable image differ from before: a text page is left writable or not executable'
+            elif int(e.get('stray', '0')):
+                why[i] = f'after step {sn} ({stp}) {e["stray"]} byte(s) outside the 13 entry bytes of the targets changed'
+            elif any(ch != 'x' for ch in e.get('mperm', '').replace('/', '')):
+                why[i] = f'after step {sn} ({stp}) a page of mapped target code is {e["mperm"]}, not r-x'
+            else:
+                for a, ln, prot, r in cs:
+                    if r == '0' and 'x' not in prot:
+                        why[i] = f'step {sn} ({stp}): mprotect({label(a)}, {prot}) drops the execute bit'
+                    elif a // 4096 not in allowed and not (a // 4096 in tpages):
+                        why[i] = f'step {sn} ({stp}): mprotect on a page that holds no entry byte of any target ({a:#x})'
+            lens = vec.rstrip('}').split(';')[1] if ';' in vec else ''
+            if not why[i] and any(x not in ('-', '13/13') for x in lens.split(',') if x):
+                why[i] = f'after step {sn} ({stp}) a guard holds {lens} saved/jump bytes, wanted 13/13'
+        line = ' '.join(out_steps)
+        # UnpatchAll visits the map in an unspecified order: when the model says the outcome is not determined, compare up to there
+        if model and model[i] and model[i].endswith('=panic[nondet]'):
+            nst = len(model[i].split())
+            toks = line.split()
+            if len(toks) >= nst and toks[nst - 1].startswith('unpatchall=panic'):
+                line = ' '.join(toks[:nst - 1] + ['unpatchall=panic[nondet]'])
+        impl[i] = line
+    return impl, model, raw, why, (log if rc != 0 else '')
 
 
 def pages_crossed(op):
@@ -554,12 +792,18 @@ def run(tier):
         if op.startswith('c14.write'):
             if raw[i] is None and crashed:
                 continue        # not run: the probe died at an earlier op (reported there)
-            why = oracle_write(op, raw[i], calls[i], base)
+            why = oracle_write(op, raw[i], calls[i], base[i])
             if why:
                 bad.append((i, op, why))
             crashed = crashed or raw[i] is None
+    known = [b for b in bad if b[2].startswith('KNOWN:')]
+    bad = [b for b in bad if not b[2].startswith('KNOWN:')]
+    for i, op, why in known[:1]:
+        _, key, text = why.split(':', 2)
+        out.violation(f'{op[:120]}: {text}', {'kind': 'impl-oracle', 'ops': [op], 'observed': raw[i], 'calls': canon_calls(calls[i] or [], base[i]),
+                                              'why': text, 'how': 'python3 check.py C14 --replay <this file>'}, key=key)
     for i, op, why in bad[:3]:
-        out.violation(f'{op[:120]}: {why}', {'kind': 'impl-oracle', 'ops': [op], 'observed': raw[i], 'calls': canon_calls(calls[i] or [], base),
+        out.violation(f'{op[:120]}: {why}', {'kind': 'impl-oracle', 'ops': [op], 'observed': raw[i], 'calls': canon_calls(calls[i] or [], base[i]),
                                              'why': why, 'how': 'python3 check.py C14 --replay <this file>'})
     # text lane: survey of every function, then the real Patch/Apply/Unpatch
     bins = build_probes()
@@ -594,19 +838,41 @@ def run(tier):
             why = f'genJumpData accepts a function of {op.split()[1]} bytes, too short to hold the 13-byte jump'
         if why:
             tbad.append((i, op, why))
+    tknown = [b for b in tbad if b[2].startswith('KNOWN:')]
+    tbad = [b for b in tbad if not b[2].startswith('KNOWN:')]
+    for i, op, why in tknown[:1]:
+        _, key, text = why.split(':', 2)
+        out.violation(f'{op[:160]}: {text}', {'kind': 'impl-oracle', 'lane': 'text', 'ops': [op], 'observed': traw[i], 'why': text,
+                                              'how': 'python3 check.py C14 --replay <this file>'}, key=key)
     for i, op, why in tbad[:3]:
         out.violation(f'{op[:160]}: {why}', {'kind': 'impl-oracle', 'lane': 'text', 'ops': [op], 'observed': traw[i] if i >= 0 else head, 'why': why,
                                              'how': 'python3 check.py C14 --replay <this file>'})
     bad += tbad
+    # floors: a lane that silently ran nothing is a machinery failure, not a pass
+    n_wr = sum(1 for i, op in enumerate(ops) if op.startswith('c14.write') and raw[i] is not None and calls[i] is not None)
+    n_fb = sum(1 for i, op in enumerate(ops) if op.startswith('c14.writewx') and impl[i] and impl[i].startswith('res=ok-fallback'))
+    n_ap = sum(1 for l in timpl if l and l.startswith('apply=ok'))
+    if not bad and not tbad and (n_wr < 500 or n_fb < 20 or n_ap < 40 or len(fs) < 1000):
+        raise C.Infra(f'a lane ran (almost) nothing: traced writes={n_wr}, fall-back writes={n_fb}, applied patches={n_ap}, surveyed functions={len(fs)}')
+    # history lane
+    hops = gen_hist_ops(fs, tier, rng)
+    himpl, hmodel, hraw, hwhy, hlog = execute_hist(hops, bins, fs)
+    hbad = [(i, op, hwhy[i]) for i, op in enumerate(hops) if hwhy[i]]
+    if not hbad and (len(hops) < 15 or sum((l or '').count('rwx=0') for l in himpl) < 50):
+        raise C.Infra('the history lane ran (almost) nothing')
+    for i, op, why in hbad[:3]:
+        out.violation(f'{op[:200]}: {why}', {'kind': 'impl-oracle', 'lane': 'history', 'ops': [op], 'observed': hraw[i], 'why': why,
+                                             'how': 'python3 check.py C14 --replay <this file>'})
+    bad += hbad
     # 2. correspondence
     sp = os.path.join(C.BUILD, 'c14.surveygen.ops')
     open(sp, 'w').write('\n'.join(sops) + '\n')
     exe, _ = C.build_driver()
     smodel = C.run_driver(exe, sp, os.path.join(C.BUILD, 'c14.surveygen.model')) if exe else None
     n_scratch = len(ops)
-    ops = ops + tops + sops
-    impl = impl + timpl + simpl
-    model = (model + (tmodel or [None] * len(tops)) + (smodel or [None] * len(sops))) if model is not None else None
+    ops = ops + tops + hops + sops
+    impl = impl + timpl + himpl + simpl
+    model = (model + (tmodel or [None] * len(tops)) + (hmodel or [None] * len(hops)) + (smodel or [None] * len(sops))) if model is not None else None
     diffs = C.diff_streams(ops, impl, model) if model is not None else []
     if model is None:
         proof['failed'].append(('goomdrv', 'driver does not build: ' + str(perr)[-500:]))
@@ -626,7 +892,12 @@ def run(tier):
             'pages crossed': {}, 'length buckets': {}, 'initial perms (non r-x pages present)': 0, 'outcomes (impl)': {},
             'gen_modules_changed_this_run': changed, 'text lane: survey of the test binary': sv,
             'text lane ops': {k: sum(1 for o in tops if o.startswith(k)) for k in ('c14.install', 'c14.gen', 'c14.tramp')},
-            'text lane outcomes': {}}
+            'text lane outcomes': {}, 'history lane': {'histories': len(hops), 'steps': sum(len(o.split()) - 3 for o in hops),
+                                                        'with a private code mapping (M target)': sum(1 for o in hops if 'M:' in o),
+                                                        'with an unmap step': sum(1 for o in hops if ' unmap.' in o),
+                                                        'entry straddling a page end': sum(1 for o in hops if any(t.startswith('M:') and int(t.split(':')[1]) > 4083 for t in o.split()[1].split(','))),
+                                                        'step kinds': {w: sum(o.count(' ' + w) for o in hops) for w in ('patch', 'apply', 'unpatch.', 'restore', 'unpatchfn', 'unpatchall', 'unmap')},
+                                                        'steps that panicked (impl)': sum((l or '').count('=panic') for l in himpl)}}
     for i, o in enumerate(tops):
         r = (timpl[i] or 'none').split()[0].split(':')[0]
         dist['text lane outcomes'][r] = dist['text lane outcomes'].get(r, 0) + 1
@@ -669,12 +940,21 @@ def run(tier):
 def replay(body):
     ops = body.get('ops', [])
     rc = 0
-    scratch = [o for o in ops if o.startswith('c14.write') or o.startswith('c14.ps')]
-    text = [o for o in ops if o not in scratch]
+    scratch = [o for o in ops if o.startswith('c14.write') or o.startswith('c14.ps ')]
+    hist = [o for o in ops if o.startswith('c14.hist ')]
+    text = [o for o in ops if o not in scratch and o not in hist]
+    if hist:
+        bins = build_probes()
+        head, fs = run_text_survey(bins)
+        impl, model, raw, why, _ = execute_hist(hist, bins, fs, tag='c14-replay.hist')
+        for i, op in enumerate(hist):
+            print(f'{op[:300]}\n  impl : {impl[i]}\n  raw  : {(raw[i] or "")[-600:]}\n  model: {model[i] if model else None}\n  oracle: {why[i] or "ok"}')
+            if why[i] or (model and impl[i] != model[i]):
+                rc = 1
     if scratch:
         impl, model, raw, calls, base, _ = execute(scratch, tag='c14-replay')
         for i, op in enumerate(scratch):
-            why = oracle_write(op, raw[i], calls[i], base) if op.startswith('c14.write') else None
+            why = oracle_write(op, raw[i], calls[i], base[i]) if op.startswith('c14.write') else None
             print(f'{op[:200]}\n  impl : {impl[i]}\n  model: {model[i] if model else None}\n  oracle: {why or "ok"}')
             if why or (model and impl[i] != model[i]):
                 rc = 1
